@@ -40,6 +40,11 @@ def floors(tier):
     return {'checked': 5000, 'len:outputs': 6, 'len:positions': 5, 'sqlite_engine_readbacks': 300}
 
 
+def ceilings(tier):
+    # fractions of all evaluations; the unchanged tree stays below about two thirds of each
+    return {'unsupported_or_ambiguous': 0.08}
+
+
 def build(pos, value):
     from mindsdb_sql.parser import ast as A
     c = A.Constant(value)
